@@ -109,6 +109,14 @@ func VerifHarness_RegisterStep() {
 		ids = append(ids, id)
 		from = append(from, vs[k].Protocol)
 	}
+	// optionally the last mapping ends at a "last valid" version (inclusive)
+	last := proto.Protocol(1 << 30)
+	if lk := zz.Choose(len(vs) + 1); lk < len(vs) {
+		zz.Assume(lk >= prev)
+		ms[n-1] = ml(ids[n-1], vs[prev], vs[lk])
+		last = vs[lk].Protocol
+		zz.Reach("register-last-valid")
+	}
 	panicked := zzCatch(func() { reg.Register(&packet.Disconnect{}, ms...) })
 	// expected id per protocol
 	conflict := false
@@ -123,6 +131,9 @@ func VerifHarness_RegisterStep() {
 			if p >= from[i] {
 				want = int(ids[i])
 			}
+		}
+		if p > last {
+			want = -1 // past the last valid version of the last mapping
 		}
 		if want == 5 && p >= version.Minecraft_1_8.Protocol {
 			conflict = true
